@@ -18,7 +18,7 @@ from .common import calls, stmt_nodes, norm_successors, contains, pn, access_pat
 MOVES = ("shutil.move", "os.replace", "os.rename")
 
 
-@rule("C15.atomic-publish", min_instances=6)
+@rule("C15.atomic-publish", min_instances=6, props=["C09"])
 def atomic_publish(ctx):
     """default writer: mkstemp(dir=dirname(outputpath)) -> os.write -> os.close -> move(tmp, outputpath); outputpath is written by nothing else"""
     db = ctx.db
